@@ -397,6 +397,18 @@ pub fn one_run(rng: &mut Rng, large: bool, layout: u64) -> Vec<Value> {
             return ev;
         }
     }
+    // C07 on recorded ontologies: the binary round trip of an ontology that holds the two standard roots is the same
+    // ontology (the event is validated like Built, under every focus)
+    if order.contains(&1) && order.contains(&118) {
+        match catch(|| hpo::Ontology::from_bytes(&ont.as_bytes())) {
+            Ok(Ok(re)) => match proj_json(&re) {
+                Ok(p) => ev.push(json!({"e": "Reloaded", "proj": p})),
+                Err(p) => ev.push(json!({"e": "ReloadPanicked", "why": p})),
+            },
+            Ok(Err(e)) => ev.push(json!({"e": "ReloadFailed", "why": e.to_string()})),
+            Err(p) => ev.push(json!({"e": "ReloadFailed", "why": p})),
+        }
+    }
     // pair queries on the built ontology: the structural results are validated by TLC (focus C04) against
     // HpoSetOps / HpoSim; the eight similarity formulas are evaluated here on exactly these observed
     // arguments and the terms' observed information content
